@@ -435,9 +435,8 @@ def run(ctx, rep):
         n = Po.gnode(pi)
         if n in wo:
             ms = True
-        for o, v in norm_learn(learn):
-            if origin_call(o) in cn_set and v in OKV:
-                ms = False
+        if M.new_chunk(pi, learn):
+            ms = False
         return ms
     seen3 = run_monitor(Po, False, step3)
     bad = next(((pi, ms) for (pi, ms) in seen3 if Po.gnode(pi) in applies and not ms), None)
